@@ -1,0 +1,231 @@
+//! Verification-only entry points (`--cfg woodpile_verif`).
+//!
+//! [`RawEncoder`] and [`RawDecoder`] drive the very same encoder and decoder
+//! state machines as [`crate::Encoder`] and [`crate::Decoder`], through the
+//! same thin wrappers, but with caller-chosen chunk size limits.  With tiny
+//! limits, short inputs reach every chunk boundary interaction.
+//!
+//! Nothing here changes the behaviour of the crate.
+use std::io::Read;
+use std::num::NonZeroUsize;
+
+use owning_iovec::AnchoredSlice;
+use owning_iovec::ConsumingIovec;
+use owning_iovec::OwningIovec;
+
+use crate::decoder::DecoderState;
+use crate::encoder::EncoderState;
+use crate::DecodingError;
+use crate::Parameters;
+
+fn make_params(max_initial_size: usize, max_subsequent_size: usize) -> Parameters {
+    assert!((1..crate::RADIX).contains(&max_initial_size));
+    assert!((1..crate::RADIX * crate::RADIX).contains(&max_subsequent_size));
+    Parameters {
+        max_initial_size: NonZeroUsize::new(max_initial_size).unwrap(),
+        max_subsequent_size: NonZeroUsize::new(max_subsequent_size).unwrap(),
+    }
+}
+
+/// The production chunk size limits (first chunk, subsequent chunks).
+pub fn prod_limits() -> (usize, usize) {
+    (
+        crate::PROD_PARAMS.max_initial_size.get(),
+        crate::PROD_PARAMS.max_subsequent_size.get(),
+    )
+}
+
+/// Same as [`crate::Encoder`], with caller-chosen chunk size limits.
+#[derive(Debug)]
+pub struct RawEncoder<'this> {
+    state: EncoderState,
+    iovec: OwningIovec<'this>,
+    params: Parameters,
+}
+
+impl std::fmt::Debug for Parameters {
+    fn fmt(&self, f: &mut std::fmt::Formatter<'_>) -> std::fmt::Result {
+        write!(
+            f,
+            "Parameters({}, {})",
+            self.max_initial_size, self.max_subsequent_size
+        )
+    }
+}
+
+impl<'this> RawEncoder<'this> {
+    /// See [`crate::Encoder::new_from_iovec`].
+    #[must_use]
+    pub fn new_from_iovec(
+        mut iovec: OwningIovec<'this>,
+        max_initial_size: usize,
+        max_subsequent_size: usize,
+    ) -> Self {
+        let params = make_params(max_initial_size, max_subsequent_size);
+        RawEncoder {
+            state: EncoderState::new(&mut iovec, params),
+            iovec,
+            params,
+        }
+    }
+
+    /// See [`crate::Encoder::consumer`].
+    #[must_use]
+    pub fn consumer(&mut self) -> ConsumingIovec<'_> {
+        self.iovec.consumer()
+    }
+
+    /// See [`crate::Encoder::encode`].
+    pub fn encode(&mut self, data: &'this [u8]) {
+        let mut state = Default::default();
+        std::mem::swap(&mut state, &mut self.state);
+        self.state = state.encode_borrow(&mut self.iovec, self.params, data);
+    }
+
+    /// See [`crate::Encoder::encode_copy`].
+    pub fn encode_copy(&mut self, data: &[u8]) {
+        let mut state = Default::default();
+        std::mem::swap(&mut state, &mut self.state);
+        self.state = state.encode_copy(&mut self.iovec, self.params, data);
+    }
+
+    /// See [`crate::Encoder::encode_anchored`].
+    pub fn encode_anchored(&mut self, data: AnchoredSlice) {
+        let (_, slice, anchor) = unsafe { data.components() };
+
+        if slice.is_empty() {
+            return;
+        }
+
+        self.encode(slice);
+        self.iovec.push_anchor(anchor);
+    }
+
+    /// See [`crate::Encoder::finish`].
+    #[must_use]
+    pub fn finish(mut self) -> OwningIovec<'this> {
+        self.state.terminate(&mut self.iovec);
+        self.iovec
+    }
+
+    /// See [`crate::Encoder::read_n`].
+    pub fn read_n(
+        &mut self,
+        reader: impl Read,
+        count: usize,
+        attempts: NonZeroUsize,
+    ) -> std::io::Result<AnchoredSlice> {
+        self.iovec.arena().read_n(reader, count, attempts)
+    }
+
+    /// See [`crate::Encoder::encode_read`].
+    pub fn encode_read(
+        &mut self,
+        reader: impl Read,
+        count: usize,
+        attempts: NonZeroUsize,
+    ) -> std::io::Result<usize> {
+        let anchored_slice = self.read_n(reader, count, attempts)?;
+        let ret = anchored_slice.slice().len();
+
+        self.encode_anchored(anchored_slice);
+        Ok(ret)
+    }
+}
+
+/// Same as [`crate::Decoder`], with caller-chosen chunk size limits.
+#[derive(Debug)]
+pub struct RawDecoder<'this> {
+    state: DecoderState,
+    iovec: OwningIovec<'this>,
+    params: Parameters,
+}
+
+impl<'this> RawDecoder<'this> {
+    /// See [`crate::Decoder::new_from_iovec`].
+    #[must_use]
+    pub fn new_from_iovec(
+        iovec: OwningIovec<'this>,
+        max_initial_size: usize,
+        max_subsequent_size: usize,
+    ) -> Self {
+        RawDecoder {
+            state: DecoderState::new(),
+            iovec,
+            params: make_params(max_initial_size, max_subsequent_size),
+        }
+    }
+
+    /// See [`crate::Decoder::consumer`].
+    #[must_use]
+    pub fn consumer(&mut self) -> ConsumingIovec<'_> {
+        self.iovec.consumer()
+    }
+
+    /// See [`crate::Decoder::take_iovec`].
+    #[must_use]
+    pub fn take_iovec(self) -> OwningIovec<'this> {
+        self.iovec
+    }
+
+    /// See [`crate::Decoder::decode`].
+    pub fn decode(&mut self, data: &'this [u8]) -> Result<(), DecodingError> {
+        let mut state = Default::default();
+        std::mem::swap(&mut state, &mut self.state);
+        self.state = state.decode_borrow(&mut self.iovec, self.params, data)?;
+        Ok(())
+    }
+
+    /// See [`crate::Decoder::decode_copy`].
+    pub fn decode_copy(&mut self, data: &[u8]) -> Result<(), DecodingError> {
+        let mut state = Default::default();
+        std::mem::swap(&mut state, &mut self.state);
+        self.state = state.decode_copy(&mut self.iovec, self.params, data)?;
+        Ok(())
+    }
+
+    /// See [`crate::Decoder::decode_anchored`].
+    pub fn decode_anchored(&mut self, data: AnchoredSlice) -> Result<(), DecodingError> {
+        let (_, slice, anchor) = unsafe { data.components() };
+
+        if slice.is_empty() {
+            return Ok(());
+        }
+
+        let ret = self.decode(slice);
+        self.iovec.push_anchor(anchor);
+        ret
+    }
+
+    /// See [`crate::Decoder::finish`].
+    pub fn finish(self) -> Result<OwningIovec<'this>, DecodingError> {
+        self.state.terminate()?;
+        Ok(self.iovec)
+    }
+
+    /// See [`crate::Decoder::read_n`].
+    pub fn read_n(
+        &mut self,
+        reader: impl Read,
+        count: usize,
+        attempts: NonZeroUsize,
+    ) -> std::io::Result<AnchoredSlice> {
+        self.iovec.arena().read_n(reader, count, attempts)
+    }
+
+    /// See [`crate::Decoder::decode_read`].
+    pub fn decode_read(
+        &mut self,
+        reader: impl Read,
+        count: usize,
+        attempts: NonZeroUsize,
+    ) -> std::io::Result<usize> {
+        let anchored_slice = self.read_n(reader, count, attempts)?;
+
+        let len = anchored_slice.slice().len();
+        match self.decode_anchored(anchored_slice) {
+            Ok(()) => Ok(len),
+            Err(e) => Err(std::io::Error::other(e)),
+        }
+    }
+}
